@@ -45,7 +45,7 @@ RULE = ("case = (starting schema, populated?, connection mode, fault plan); enum
         "distinct = hash of the case; non-trivial = at least one migration is pending at the start or a fault is injected")
 REQUIRED_REACH = ["clean_run_compared", "schema_equal_checked", "versions_once_checked", "second_run_compared",
                   "prefix_upgrade_compared", "legacy_bootstrap_compared", "fault_fired", "rerun_after_fault_compared",
-                  "kill_fired", "deny_fired"]
+                  "kill_fired", "deny_fired", "crash_emulation_fired", "interrupt_fired"]
 ASSUMPTIONS = [
     "a legacy database at user_version=v has the schema produced by the first v packaged scripts (or the equivalent single CREATE TABLE used by the repo's own tests)",
     "one process migrates a database at a time (no concurrent migrators)",
@@ -82,14 +82,15 @@ def plan(tier, seed):
         states += [{"kind": "prefix", "k": k} for k in range(0, n + 1)]
         states += [{"kind": "legacy_script", "k": k} for k in range(0, n + 1)]
     states += [{"kind": "legacy_declared", "k": k} for k in sorted(DECLARED)]
-    shards = []
+    groups = []
     for mode in ("file", "single"):
         for data in (False, True):
-            for st in states:
-                if data and st["kind"] == "fresh":
-                    continue  # nothing to populate in an empty file
-                shards.append({"state": st, "mode": mode, "data": data, "tier": tier, "seed": seed})
-    return shards
+            sts = [st for st in states if not (data and st["kind"] == "fresh")]  # nothing to populate in an empty file
+            # quick: a few states per worker (the import of the server package dominates); thorough: one state per worker
+            per = -(-len(sts) // 4) if tier == "quick" else 1
+            for i in range(0, len(sts), per):
+                groups.append({"states": sts[i:i + per], "mode": mode, "data": data, "tier": tier, "seed": seed})
+    return groups
 
 
 # ----------------------------------------------------------------- sqlite helpers (harness side)
@@ -181,6 +182,10 @@ class Env:
         os.makedirs(self.pkgroot, exist_ok=True)
         sys.path.insert(0, self.pkgroot)
         self._seq = 0
+        import gc
+
+        gc.collect()
+        gc.freeze()  # keeps fork() + child exit cheap (no copy-on-write storm from the collector)
 
     def declared_versions(self):
         out = []
@@ -207,30 +212,32 @@ class Env:
 
     def run_real(self, path, mode, hook=None, factory=None):
         """The real entry point: the store constructor with auto_migrate=True."""
-        import gc
         import sqlite3
 
         real_connect = sqlite3.connect
+        opened = []
 
         def connect(*a, **kw):
             if factory is not None:
                 kw["factory"] = factory
             conn = real_connect(*a, **kw)
+            opened.append(conn)
             if hook is not None:
                 hook(conn)
             return conn
 
         sqlite3.connect = connect
-        store = None
         try:
-            store = self.Store(path, auto_migrate=True, single_connection=(mode == "single"))
+            self.Store(path, auto_migrate=True, single_connection=(mode == "single"))
         finally:
             sqlite3.connect = real_connect
-            pc = getattr(store, "_persistent_conn", None) if store is not None else None
-            if pc is not None:
-                pc.close()
-            del store
-            gc.collect()
+            # what process exit / garbage collection of the store would do: every connection it opened is closed
+            # (an open transaction is rolled back by SQLite on close)
+            for c in opened:
+                try:
+                    c.close()
+                except Exception:  # noqa: BLE001
+                    pass
 
 
 def cleanup_sidecars(path):
@@ -291,17 +298,28 @@ def copy_db(env, src):
 
 # ----------------------------------------------------------------- fault hooks
 class _Killed(BaseException):
-    pass
+    """In-process crash emulation: passes through every ``except Exception`` of the runner."""
+
+
+AUTH_KINDS = ("deny", "crash_auth", "kill_auth", "count_auth")
+PY_KINDS = ("crash_py", "kill_py", "count_py")
 
 
 def make_hook(fault, counter):
-    """fault = {"kind": deny|interrupt|kill_auth|count_auth|count_vm, "k": int}; counter: dict with 'n', 'fired'."""
+    """Authorizer / progress-handler based faults.
+
+    deny       : the k-th authorizer invocation answers SQLITE_DENY (one failing statement; the runner's own error path runs)
+    crash_auth : from the k-th invocation on EVERY statement is denied (also the runner's ROLLBACK/COMMIT), i.e. nothing after
+                 that instant is persisted by this "process"; closing the connection then discards the open transaction
+    kill_auth  : os._exit(9) inside the k-th invocation (forked child)
+    interrupt  : the k-th progress callback (every VM instruction) interrupts the running statement
+    """
     import sqlite3
 
     kind, k = fault["kind"], fault.get("k", -1)
 
     def hook(conn):
-        if kind in ("deny", "kill_auth", "count_auth"):
+        if kind in AUTH_KINDS:
             def auth(*_a):
                 i = counter["n"]
                 counter["n"] += 1
@@ -311,6 +329,8 @@ def make_hook(fault, counter):
                         os._exit(9)
                     if kind == "deny":
                         return sqlite3.SQLITE_DENY
+                if kind == "crash_auth" and i >= k:
+                    return sqlite3.SQLITE_DENY
                 return sqlite3.SQLITE_OK
 
             conn.set_authorizer(auth)
@@ -329,24 +349,38 @@ def make_hook(fault, counter):
 
 
 def make_factory(fault, counter):
-    """Connection factory counting Python-level sqlite calls; kill_py exits right after the k-th one."""
+    """Connection factory counting Python-level sqlite calls.
+
+    kill_py  : os._exit(9) right after the k-th call returned (forked child)
+    crash_py : raise _Killed (BaseException) right after the k-th call returned and on every later call
+    """
     import sqlite3
 
     kind, k = fault["kind"], fault.get("k", -1)
 
+    def before():
+        if kind == "crash_py" and counter["fired"]:
+            raise _Killed()
+
     def tick():
         i = counter["n"]
         counter["n"] += 1
-        if kind == "kill_py" and i == k:
-            os._exit(9)
+        if i == k:
+            if kind == "kill_py":
+                os._exit(9)
+            if kind == "crash_py":
+                counter["fired"] = True
+                raise _Killed()
 
     class Cur(sqlite3.Cursor):
         def execute(self, *a, **kw):
+            before()
             r = super().execute(*a, **kw)
             tick()
             return r
 
         def executescript(self, *a, **kw):
+            before()
             r = super().executescript(*a, **kw)
             tick()
             return r
@@ -356,16 +390,19 @@ def make_factory(fault, counter):
             return super().cursor(Cur)
 
         def execute(self, *a, **kw):
+            before()
             r = super().execute(*a, **kw)
             tick()
             return r
 
         def executescript(self, *a, **kw):
+            before()
             r = super().executescript(*a, **kw)
             tick()
             return r
 
         def commit(self):
+            before()
             r = super().commit()
             tick()
             return r
@@ -375,7 +412,7 @@ def make_factory(fault, counter):
 
 def run_with_fault(env: Env, path, mode, fault):
     """Run the real migration entry point with one injected fault.
-    Returns ("raised", exc_name) | ("completed", None) | ("killed", None)."""
+    Returns (outcome, detail) with outcome in raised|raised_unfired|completed|completed_fired|killed|crashed."""
     kind = fault["kind"]
     if kind in ("kill_auth", "kill_py"):
         pid = os.fork()
@@ -394,18 +431,20 @@ def run_with_fault(env: Env, path, mode, fault):
         rc = os.waitstatus_to_exitcode(status)
         if rc == 9:
             return ("killed", None)
-        return ("raised", "child") if rc == 3 else ("completed", None)
+        return ("raised_unfired", "child") if rc == 3 else ("completed", None)
     counter = {"n": 0, "fired": False}
     try:
-        env.run_real(path, mode, hook=make_hook(fault, counter))
+        if kind in PY_KINDS:
+            env.run_real(path, mode, factory=make_factory(fault, counter))
+        else:
+            env.run_real(path, mode, hook=make_hook(fault, counter))
+    except _Killed:
+        return ("crashed", None)
     except Exception as e:  # noqa: BLE001
-        res = ("raised", type(e).__name__) if counter["fired"] else ("raised_unfired", type(e).__name__)
-    else:
-        res = ("completed_fired", None) if counter["fired"] else ("completed", None)
-    import gc
-
-    gc.collect()  # the failed store's connection must be gone before the next run opens the file
-    return res
+        if kind == "crash_auth" and counter["fired"]:
+            return ("crashed", type(e).__name__)
+        return ("raised", type(e).__name__) if counter["fired"] else ("raised_unfired", type(e).__name__)
+    return ("completed_fired", None) if counter["fired"] else ("completed", None)
 
 
 def count_points(env: Env, tmpl, mode):
@@ -438,11 +477,8 @@ def state_tag(state):
     return state["kind"] if state.get("k") is None else f"{state['kind']}:{state['k']}"
 
 
-def judge_final(env: Env, acc: Acc, case, path, mode, fresh, before_counts, after_fault):
+def judge_final(env: Env, acc: Acc, case, path, mode, fresh, before_counts, sig_base):
     """The three conditions of the statement on a database the real runner has just finished migrating."""
-    sig_base = {"start": state_tag(case["state"]), "mode": mode}
-    if after_fault:
-        sig_base["after_fault"] = "+".join(f["kind"] for f in case["faults"])
     snap = snapshot(path, mode)
     acc.hit("schema_equal_checked")
     if snap["schema"] != fresh["schema"]:
@@ -477,6 +513,19 @@ def judge_final(env: Env, acc: Acc, case, path, mode, fresh, before_counts, afte
                       "a second migration run changed the database (schema, schema_migrations or rows)", case)
 
 
+def classify_mid_state(case, mid):
+    """Name the mechanism from the state the injected failure(s) left behind (before the clean re-run)."""
+    st = case["state"]
+    if mid is None:
+        return None
+    if st["kind"].startswith("legacy") and mid["versions"] is not None:
+        seeded = {v for p, v in mid["versions"] if p == "server"}
+        if any(v not in seeded for v in range(1, int(st.get("k") or 0) + 1)):
+            # schema_migrations exists (so the bootstrap will not run again) but the legacy versions were never seeded
+            return "legacy_bootstrap_not_atomic"
+    return None
+
+
 def run_case(env: Env, acc: Acc, case, tmpl, fresh):
     """case = {state, mode, data, faults:[...]}.  tmpl: path of the starting database."""
     mode = case["mode"]
@@ -487,11 +536,13 @@ def run_case(env: Env, acc: Acc, case, tmpl, fresh):
         fired_any = False
         for f in faults:
             res = run_with_fault(env, path, mode, f)
-            if res[0] in ("raised", "killed", "completed_fired"):
+            if res[0] in ("raised", "killed", "crashed", "completed_fired"):
                 fired_any = True
                 acc.hit("fault_fired")
                 if res[0] == "killed":
                     acc.hit("kill_fired")
+                if res[0] == "crashed":
+                    acc.hit("crash_emulation_fired")
                 if f["kind"] in ("deny", "interrupt") and res[0] == "raised":
                     acc.hit("deny_fired" if f["kind"] == "deny" else "interrupt_fired")
                 if res[0] == "completed_fired":
@@ -500,17 +551,30 @@ def run_case(env: Env, acc: Acc, case, tmpl, fresh):
                 acc.note("run_raised_before_fault_point")
         if faults and not fired_any:
             acc.note("fault_point_beyond_run")
+        mid = None
+        if faults:
+            try:
+                mid = snapshot(path, mode)
+            except Exception:  # noqa: BLE001
+                acc.note("database_unreadable_after_fault")
+        sig_extra = {}
+        if faults:
+            mech_mid = classify_mid_state(case, mid)
+            if mech_mid:
+                sig_extra = {"mid_state": mech_mid}
+            else:
+                sig_extra = {"after_fault": "+".join(sorted({f["kind"] for f in faults})), "start": case["state"]["kind"], "mode": mode}
+        else:
+            sig_extra = {"start": state_tag(case["state"]), "mode": mode}
         try:
             env.run_real(path, mode)
         except Exception as e:  # noqa: BLE001
-            sig = {"mech": "migration_run_raised", "exc": type(e).__name__, "start": state_tag(case["state"]), "mode": mode}
-            if faults:
-                sig["after_fault"] = "+".join(f["kind"] for f in faults)
-            acc.violation(sig, f"migration run from {state_tag(case['state'])}"
-                          + (f" after injected {sig['after_fault']}" if faults else "")
+            sig = {"mech": "migration_run_raised", "exc": type(e).__name__, **sig_extra}
+            acc.violation(sig, f"migration run from {state_tag(case['state'])} ({mode})"
+                          + (f" after injected {'+'.join(f['kind'] + '@' + str(f['k']) for f in faults)}" if faults else "")
                           + f" raised {type(e).__name__}: {str(e)[:120]}", case)
             return
-        judge_final(env, acc, case, path, mode, fresh, before, bool(faults))
+        judge_final(env, acc, case, path, mode, fresh, before, sig_extra)
         if faults:
             acc.hit("rerun_after_fault_compared")
         else:
@@ -540,22 +604,28 @@ def fault_plans(tier, counts, rnd):
     plans = []
     a, v, p = counts["count_auth"], counts["count_vm"], counts["count_py"]
     if tier == "quick":
-        auth_ks = sorted(set(range(0, a, 5)) | {a - 1} if a else set())
-        kill_ks = sorted(set(range(2, a, 9)))
-        py_ks = list(range(0, p, 2))
+        deny_ks = sorted(set(range(0, a, 4)) | ({a - 1} if a else set()))
+        crash_ks = sorted(set(range(2, a, 4)))
+        # process creation is slow in the sandbox (0.1-0.5 s per fork): two true kills per starting schema here,
+        # the in-process crash emulations (crash_auth / crash_py) cover every other point
+        kill_ks = [a // 2] if a else []
+        pyk_ks = [p // 2] if p else []
         vm_ks = sorted(set(range(0, v, max(1, v // 12)))) if v else []
     else:
-        auth_ks = list(range(a))
-        kill_ks = list(range(a))
-        py_ks = list(range(p))
+        deny_ks = list(range(a))
+        crash_ks = list(range(a))
+        kill_ks = list(range(0, a, 8))
+        pyk_ks = list(range(p))
         vm_ks = sorted(set(range(0, v, max(1, v // 400)))) if v else []
-    plans += [[{"kind": "deny", "k": k}] for k in auth_ks]
-    plans += [[{"kind": "kill_auth", "k": k}] for k in kill_ks]
-    plans += [[{"kind": "kill_py", "k": k}] for k in py_ks]
+    plans += [[{"kind": "deny", "k": k}] for k in deny_ks]
+    plans += [[{"kind": "crash_auth", "k": k}] for k in crash_ks]
+    plans += [[{"kind": "crash_py", "k": k}] for k in range(p)]
     plans += [[{"kind": "interrupt", "k": k}] for k in vm_ks]
+    plans += [[{"kind": "kill_auth", "k": k}] for k in kill_ks]
+    plans += [[{"kind": "kill_py", "k": k}] for k in pyk_ks]
     if tier == "thorough" and a:
-        kinds = ["deny", "kill_auth", "kill_py", "interrupt"]
-        lim = {"deny": a, "kill_auth": a, "kill_py": max(p, 1), "interrupt": max(v, 1)}
+        kinds = ["deny"] * 3 + ["crash_auth"] * 3 + ["crash_py"] * 2 + ["interrupt"] * 2 + ["kill_auth", "kill_py"]
+        lim = {"deny": a, "crash_auth": a, "kill_auth": a, "kill_py": max(p, 1), "crash_py": max(p, 1), "interrupt": max(v, 1)}
         for _ in range(250):
             k1, k2 = rnd.choice(kinds), rnd.choice(kinds)
             plans.append([{"kind": k1, "k": rnd.randrange(lim[k1])}, {"kind": k2, "k": rnd.randrange(lim[k2])}])
@@ -579,12 +649,12 @@ def run_shard(shard):
         if env.n == 0:
             acc.inconclusive.append("no packaged migrations found")
             return acc.to_dict()
-        rnd = random.Random(f"{shard['seed']}-{state_tag(shard['state'])}-{mode}-{data}")
+        rnd = random.Random(f"{shard['seed']}-{state_tag(shard['states'][0])}-{mode}-{data}")
         # reference: a fresh install by the same code in the same mode
         fpath = env.newpath("fresh")
         env.run_real(fpath, mode)
         fresh = snapshot(fpath, mode)
-        for state in expand_states(env, shard["state"]):
+        for state in [x for st in shard["states"] for x in expand_states(env, st)]:
             if state["kind"] == "legacy_declared" and state["k"] > env.n:
                 continue
             tmpl = build_template(env, state, mode, data)
